@@ -27,6 +27,7 @@ type Session struct {
 	LoadTime time.Duration
 	InitSkipped []string
 	z        *z3proc
+	fnNames  map[string]bool
 }
 
 // Load type-checks dir's packages with the overlay, builds SSA for the whole program
@@ -122,6 +123,7 @@ type Job struct {
 	MapBudget  int               `json:"map_budget,omitempty"`
 	SampleEach int               `json:"sample_each,omitempty"`
 	Z3Log      string            `json:"z3log,omitempty"`
+	Summaries  []string          `json:"summaries,omitempty"` // pure callees merged into one term per call
 }
 
 type FuncCov struct {
@@ -196,6 +198,24 @@ func (s *Session) RunJob(job Job) (res JobResult) {
 		}
 	}
 	e := &Explorer{z: s.z, MaxSteps: job.MaxSteps, MaxDepth: job.MaxDepth, TimeoutMs: job.TimeoutMs, SampleEach: job.SampleEach}
+	if len(job.Summaries) > 0 {
+		e.Summaries = map[string]bool{}
+		if s.fnNames == nil {
+			s.fnNames = map[string]bool{}
+			for f := range ssautil.AllFunctions(s.prog) {
+				if f.Pkg != nil && covPkgs[f.Pkg.Pkg.Path()] {
+					s.fnNames[f.String()] = true
+				}
+			}
+		}
+		for _, n := range job.Summaries {
+			if !s.fnNames[n] {
+				res.Error = "harness-stale: summarised callee " + n + " not found"
+				return
+			}
+			e.Summaries[n] = true
+		}
+	}
 	if e.MaxDepth == 0 {
 		e.MaxDepth = 1500
 	}
